@@ -994,11 +994,26 @@ pixman_image_fill_boxes (pixman_op_t           op,
     for (i = 0; i < n_boxes; ++i)
     {
         const pixman_box32_t *box = &(boxes[i]);
+        int x1, y1, x2, y2;
+
+        /* The source is a solid colour and there is no mask, so only
+         * the part of the box that lies inside the image matters.
+         * Composite exactly that part: pixman_image_composite32() drops
+         * requests whose coordinates do not fit in 16 bits (the direct
+         * fill above does not), and x2 - x1 overflows for huge boxes.
+         */
+        x1 = MAX (box->x1, 0);
+        y1 = MAX (box->y1, 0);
+        x2 = MIN (box->x2, dest->bits.width);
+        y2 = MIN (box->y2, dest->bits.height);
+
+        if (x1 >= x2 || y1 >= y2)
+            continue;
 
         pixman_image_composite32 (op, solid, NULL, dest,
                                   0, 0, 0, 0,
-                                  box->x1, box->y1,
-                                  box->x2 - box->x1, box->y2 - box->y1);
+                                  x1, y1,
+                                  x2 - x1, y2 - y1);
     }
 
     pixman_image_unref (solid);
